@@ -1,4 +1,4 @@
-FIX_COMMITS = ['056fe00 (C14)', '194b898 (C18)']
+FIX_COMMITS = ['056fe00 (C14)', '194b898 (C18)', 'e5d1f9f (C05 sweep tie-break)', 'c0a262c (C10)']
 CHECKS = {
  'C14': dict(category='proof',
    text='For all (n_nodes, n_cores, n_inputs, trials, job_idx) - no bound - the body of run_parallel is executed symbolically and 10 '
@@ -54,5 +54,14 @@ CHECKS['C02'] = dict(category='proof',
    note='Assumed: numpy nonzero() lists columns ascending; dict keys() visits each key once; a duplicate-free coordinate list makes qubit_index a bijection. '
         'stabilizer_matrix (dok assembly) and the CSS properties are not proved, only checked at run time.',
    technique='LIA VCs with symbolic lattice size; quantified loop invariants (ghost visited set) over the AST-derived loop body; taint scan; run-time contracts')
+CHECKS['C10'] = dict(category='proof',
+   text='For the four decoder/code pairs the real flip_edge and the real get_stabilizer are executed symbolically with symbolic lattice size, edge and face: z3 proves '
+        'that the toggled face set of an edge equals the face stabilizers anticommuting with Z on it (for RotatedToric3D outside the known seam region F-C10-b), that every '
+        'store into signs is a 0/1 toggle, and that nothing raises. StabilizerCode.site is proved to be the GF(2) Pauli toggle for X, Y, Z on an arbitrary operator; the update '
+        'loop of sweep_move is shown to call flip_edge on the copied signs and to toggle the correction with Z exactly once per flipped edge; initial state and decode structure '
+        'are checked structurally. Every sweep step of real decodes (all weight-1, sampled weight-2, random Z errors, tie-break seeds) is a run-time contract (bounded).',
+   note='Assumed: GF(2)-linearity of the syndrome (C03) to lift the one-edge lemma to accumulated corrections; builder summaries; tie-break is arbitrary. The composition '
+        '"signs = face syndrome of error+correction at every step" is a lemma over geom + site + update, not a separately discharged VC.',
+   technique='LIA VCs with symbolic lattice size from the AST of flip_edge/get_stabilizer; functional-map model for site; structural rule on sweep_move; run-time contracts')
 _PENDING = 'check under construction in this session (contract-based check planned in DESIGN.md section 3); not claimed until its command exists'
 NOT_APPLICABLE = {p: _PENDING for p in ['C%02d' % i for i in range(1, 21)]}
